@@ -565,3 +565,65 @@ def clones(ctx, repo, prop="C13", rule="CLONE"):
             sb = [s for s in fb.node.body if not (isinstance(s, ast.Expr) and isinstance(s.value, ast.Constant))]
             detail = f"first difference at statement {i + 1}: `{norm(sa[i])[:70] if i < len(sa) else '<end>'}` vs `{norm(sb[i])[:70] if i < len(sb) else '<end>'}`"
         ctx.ob(rule, fa.where, f"{ra}:{qa} == {rb}:{qb} (up to local names, annotations, docstrings)", ok, detail)
+
+
+# ---------------------------------------------------------------------------
+# XY-TWIN: adjacent compound statements that are x/y mirror images stay mirror images
+# ---------------------------------------------------------------------------
+_XNAME = re.compile(r"(^|_)[xX]($|_|\d)|[a-z]X[A-Z]?|^x[A-Z]|X$|Xs$")
+
+
+def _swap_xy(name):
+    return re.sub(r"[xyXY]", lambda m: {"x": "y", "y": "x", "X": "Y", "Y": "X"}[m.group(0)], name)
+
+
+def _idents(node):
+    return {n.id for n in ast.walk(node) if isinstance(n, ast.Name)} | {n.attr for n in ast.walk(node) if isinstance(n, ast.Attribute)}
+
+
+def xy_twins(ctx, repo, scope=("",), rule="XY-TWIN", _self=False):
+    import copy
+
+    ctx.rule(rule, "two adjacent if/for/while statements whose identifiers are x/y mirror images of each other (x <-> y, flagXShort <-> flagYShort, ...) are the same statement after that renaming: boundaries, operators and constants agree between the two coordinates", floor=1)
+    if not _self:
+        _selfcheck(ctx, rule, xy_twins)
+    for rel in sorted(repo.rels()):
+        if not rel.startswith(tuple(scope)):
+            continue
+        mod = repo.mod(rel)
+        tot = 0
+        bad = []
+        for node in ast.walk(mod.tree):
+            for fld in ("body", "orelse"):
+                b = getattr(node, fld, None)
+                if not isinstance(b, list):
+                    continue
+                for s1, s2 in zip(b, b[1:]):
+                    if type(s1) is not type(s2) or not isinstance(s1, (ast.If, ast.For, ast.While)):
+                        continue
+                    i1, i2 = _idents(s1), _idents(s2)
+                    if i1 == i2:
+                        continue
+                    xi = {n for n in i1 if _XNAME.search(n)}
+                    if not xi or {(_swap_xy(n) if n in xi else n) for n in i1} != i2:
+                        continue
+
+                    class Sw(ast.NodeTransformer):
+                        def visit_Name(self, n):
+                            return ast.copy_location(ast.Name(id=_swap_xy(n.id) if n.id in xi else n.id, ctx=n.ctx), n)
+
+                        def visit_Attribute(self, n):
+                            self.generic_visit(n)
+                            if n.attr in xi:
+                                n.attr = _swap_xy(n.attr)
+                            return n
+
+                    tot += 1
+                    if ast.dump(Sw().visit(copy.deepcopy(s1))) != ast.dump(s2):
+                        bad.append(f"`{norm(s1)[:60]}` vs `{norm(s2)[:60]}`")
+        if tot:
+            ctx.ob(rule, f"{rel}:<module>", f"{tot} x/y twin statement pairs are mirror images", not bad, "; ".join(bad[:2]))
+
+
+_POSITIVE["XY-TWIN"] = "def f(x, y, out):\n    if -255 <= x <= 255:\n        out.append(x)\n    if -255 <= y <= 256:\n        out.append(y)\n"
+GENERIC.append(xy_twins)
